@@ -511,20 +511,20 @@ func (interp *Interpreter) resizeFrame() {
 // Eval evaluates Go code represented as a string. Eval returns the last result
 // computed by the interpreter, and a non nil error in case of failure.
 func (interp *Interpreter) Eval(src string) (res reflect.Value, err error) {
-	return interp.eval(src, "", true, interp.runid())
+	return interp.eval(src, "", true, interp.runid(), &runState{})
 }
 
 // EvalPath evaluates Go code located at path and returns the last result computed
 // by the interpreter, and a non nil error in case of failure.
 // The main function of the main package is executed if present.
 func (interp *Interpreter) EvalPath(path string) (res reflect.Value, err error) {
-	return interp.evalPath(path, interp.runid())
+	return interp.evalPath(path, interp.runid(), &runState{})
 }
 
 // evalPath evaluates the code located at path in the run id.
-func (interp *Interpreter) evalPath(path string, id uint64) (res reflect.Value, err error) {
+func (interp *Interpreter) evalPath(path string, id uint64, run *runState) (res reflect.Value, err error) {
 	if !isFile(interp.opt.filesystem, path) {
-		defer interp.startRun(id)()
+		defer interp.startRun(id, run)()
 		_, err := interp.importSrc(mainID, path, NoTest)
 		return res, err
 	}
@@ -533,7 +533,7 @@ func (interp *Interpreter) evalPath(path string, id uint64) (res reflect.Value, 
 	if err != nil {
 		return res, err
 	}
-	return interp.eval(string(b), path, false, id)
+	return interp.eval(string(b), path, false, id, run)
 }
 
 // EvalPathWithContext evaluates Go code located at path and returns the last
@@ -544,17 +544,17 @@ func (interp *Interpreter) EvalPathWithContext(ctx context.Context, path string)
 	interp.done = make(chan struct{})
 	interp.cancelChan = !interp.opt.fastChan
 	interp.mutex.Unlock()
-	id := interp.runid()
+	id, run := interp.runid(), &runState{}
 
 	done := make(chan struct{})
 	go func() {
 		defer close(done)
-		res, err = interp.evalPath(path, id)
+		res, err = interp.evalPath(path, id, run)
 	}()
 
 	select {
 	case <-ctx.Done():
-		interp.stop()
+		interp.stop(run)
 		return reflect.Value{}, ctx.Err()
 	case <-done:
 	}
@@ -577,9 +577,9 @@ func isFile(filesystem fs.FS, path string) bool {
 
 // eval compiles and executes src in the run id: a cancellation occurring from the
 // moment id was read, even before or during the compilation, stops the evaluation.
-func (interp *Interpreter) eval(src, name string, inc bool, id uint64) (res reflect.Value, err error) {
+func (interp *Interpreter) eval(src, name string, inc bool, id uint64, run *runState) (res reflect.Value, err error) {
 	// Source packages imported during the compilation are initialized in this run.
-	defer interp.startRun(id)()
+	defer interp.startRun(id, run)()
 	prog, err := interp.compileSrc(src, name, inc)
 	if err != nil {
 		return res, err
@@ -602,7 +602,7 @@ func (interp *Interpreter) EvalWithContext(ctx context.Context, src string) (ref
 	interp.done = make(chan struct{})
 	interp.cancelChan = !interp.opt.fastChan
 	interp.mutex.Unlock()
-	id := interp.runid()
+	id, run := interp.runid(), &runState{}
 
 	done := make(chan struct{})
 	go func() {
@@ -614,12 +614,12 @@ func (interp *Interpreter) EvalWithContext(ctx context.Context, src string) (ref
 			}
 			close(done)
 		}()
-		v, err = interp.eval(src, "", true, id)
+		v, err = interp.eval(src, "", true, id, run)
 	}()
 
 	select {
 	case <-ctx.Done():
-		interp.stop()
+		interp.stop(run)
 		return reflect.Value{}, ctx.Err()
 	case <-done:
 	}
@@ -629,13 +629,10 @@ func (interp *Interpreter) EvalWithContext(ctx context.Context, src string) (ref
 // stop sends a semaphore to all running frames and closes the chan
 // operation short circuit channel. stop may only be called once per
 // invocation of EvalWithContext.
-func (interp *Interpreter) stop() {
-	interp.frame.mutex.RLock()
-	run := interp.frame.run
-	interp.frame.mutex.RUnlock()
-	if run != nil {
-		atomic.StoreUint32(&run.cancelled, 1)
-	}
+func (interp *Interpreter) stop(run *runState) {
+	// Only the evaluation being cancelled is marked, not the one which last ran
+	// in the global frame: it may not have started yet.
+	atomic.StoreUint32(&run.cancelled, 1)
 	atomic.AddUint64(&interp.id, 1)
 	interp.mutex.Lock()
 	close(interp.done)
